@@ -324,7 +324,9 @@ theorem step_shape {okf : Nat} {s s' : State} {a : Action} (h : step okf s a = s
     · cases hf
     · split at hf
       · cases hf
-      · injection hf with hf; subst hf; exact .mem (by simp [SameEpr])
+      · split at hf
+        · injection hf with hf; subst hf; exact .mem (by simp [SameEpr])
+        · cases hf
   | create sub remote purpose isK number qAddr resAddr =>
     simp only [step] at h
     obtain ⟨app, m, _, _, hf⟩ := withApp_some h
